@@ -199,8 +199,8 @@ void h_ht_closer(void)
 	const uint32_t f = HT_F;
 	uint32_t gh = nondet_u32(), gd = nondet_u32(), gp = nondet_u32(), gq = nondet_u32();
 	__CPROVER_assume(gh < HT_N && gd < 32 && gp < HT_N && gq < HT_N);
-	uint32_t home0[HT_N];
-	ht_homes(&T, home0);
+	/* the hash is applied directly here (home == NULL): measured faster and smaller for this harness than the per-slot table */
+	const uint32_t *const home0 = NULL;
 	__CPROVER_assume(hole_unreferenced(&T, f) && window_a(&T, home0, f));
 	__CPROVER_assume(wa(&T, home0, gh, gd, f) && wb(&T, home0, gp, f) && wb(&T, home0, gq, f) && wc(&T, gp, gq, f) && wc(&T, gq, gp, f));
 	__CPROVER_assume(window_c(&T, f, gp) && window_c(&T, f, gq));
